@@ -55,7 +55,10 @@ class VStr(V):
     def __init__(self, t=None, const=None):
         if const is not None:
             if const not in VStr.lits:
-                VStr.lits[const] = z3.Const(f"str!{len(VStr.lits)}", StrSort)
+                new = z3.Const(f"str!{len(VStr.lits)}", StrSort)
+                for old in VStr.lits.values():
+                    L.TH.fact(new != old)  # distinct literals denote distinct strings
+                VStr.lits[const] = new
             t = VStr.lits[const]
         self.t = t
         self.const = const
